@@ -425,6 +425,26 @@ def generate(seed, tier):
             ops.append("oget 0")
         ops += history(rng, "o", n, m, a, 2)
         cases.append(["case obad%d m%d a%d n%d" % (i, m, a, n)] + ops)
+    # 3a'. product codings with several LEADING parameters within 1e-9 of 1 (the remaining mass drops to
+    #      1e-27..1e-48 and must still be shared out in the right proportions), then vectors that differ
+    #      in ONE later coordinate only (injectivity; relative accuracy of the tiny probabilities)
+    for i in range(600 if thorough else 60):
+        m = rng.choice([1, 1, 3])
+        a = rng.randint(0, 1)
+        n = rng.randint(6, 12)
+        lead = rng.randint(3, 4)
+        def near_one_vec():
+            return [1.0 - 10 ** rng.uniform(-12, -9) if j < lead else rng.uniform(0.05, 0.95) for j in range(n - 1)]
+        th = near_one_vec()
+        ops = ["newdim 0 %d %d %d" % (n, m, a), "setpar 0 " + hv(th)]
+        for _ in range(rng.randint(1, 3)):
+            j = rng.randrange(lead, n - 1)
+            th = list(th)
+            th[j] = rng.uniform(0.05, 0.95)
+            ops.append("setpar 0 " + hv(th))
+        ops.append("setone 0 %d %s" % (rng.randint(lead + 1, n - 1), hx(rng.uniform(0.05, 0.95))))
+        ops.append("get 0")
+        cases.append(["case nearone%d m%d a%d n%d" % (i, m, a, n)] + ops)
     # 3c. copies between objects of different coding / dimension / constraint option / class
     kinds = ["assign", "assign", "oassign", "sliceassign", "slicecopy", "baseassign", "copy", "copyctor", "ocopy",
              "oclone", "self", "chain"]
